@@ -282,7 +282,11 @@ func (c *camp) runFault(t *vk.T, P party.ID, f fault, prev []recMsg) (*runResult
 		return false
 	}
 	n, err := c.start(t, r.Bytes(4), func(n *sim.Net) {
-		switch r.Intn(4) { // delivery order varies from run to run
+		k := r.Intn(4) // delivery order varies from run to run
+		if campaignSched >= 0 {
+			k = campaignSched
+		}
+		switch k {
 		case 1:
 			n.Sched = sim.SchedRandom
 		case 2:
@@ -634,6 +638,12 @@ func culpritOracle(t *vk.T, proto string, o fx.Outcome, P party.ID, res *runResu
 }
 
 // runCampaign drives the catalogue of one protocol instance; which = "C03" or "C04".
+// campaignOnly restricts the next runCampaign to the faults whose description matches (one case at a time per child).
+var campaignOnly string
+
+// campaignSched forces the scheduler of the next fault runs (0 fifo, 1 random, 2 reverse; -1 seeded choice).
+var campaignSched = -1
+
 func runCampaign(t *vk.T, which, proto string, n, posIdx, budget, part, parts int) {
 	c := buildCamp(t, proto, n)
 	if c == nil {
@@ -655,6 +665,17 @@ func runCampaign(t *vk.T, which, proto string, n, posIdx, budget, part, parts in
 		if i%parts == part {
 			mine = append(mine, f)
 		}
+	}
+	if campaignOnly != "" {
+		// a case that runs one family of the catalogue completely (set and reset by the caller)
+		rx := regexp.MustCompile(campaignOnly)
+		mine = nil
+		for _, f := range faults {
+			if rx.MatchString(f.String()) {
+				mine = append(mine, f)
+			}
+		}
+		budget = 0
 	}
 	if re := os.Getenv("VERIF_FAULT_FILTER"); re != "" {
 		// exploration aid (not used by any registered command): run every fault whose description matches, unsampled
